@@ -3,11 +3,14 @@ package main
 import (
 	"fmt"
 	"os"
+	"path/filepath"
 	"runtime"
 	"strconv"
 	"strings"
 	"sync"
+	"sync/atomic"
 	"time"
+	"unicode/utf8"
 
 	"github.com/antlr4-go/antlr/v4"
 	"github.com/openziti/storage/ast"
@@ -16,7 +19,12 @@ import (
 
 // C10 - parsing and evaluation are total: no panics, invalid input is rejected (language / glue part).
 //
-// Case line:   Q <stream> <runes>            runes: the filter as code points, hex, '.'-separated ('-' = empty)
+// Case line:   Q <stream> <runes>            runes: the filter as code points, hex, '.'-separated ('-' = empty);
+//
+//	xHH = one raw byte that is not part of a well-formed UTF-8 sequence (the
+//	Go string holds exactly that byte; the ANTLR input stream - []rune(string) -
+//	and therefore the lexer and the lexer model see U+FFFD for it)
+//
 // Observation: Q <tokens> e<lexer errors> <verdicts> <pooled> <entries>
 //
 //	tokens    k:start:len,...  of the real lexer (zitiql.NewZitiQlLexer), positions in runes, '-' if none
@@ -353,8 +361,8 @@ func c10Pooled(filter string) (res string) {
 	return "p0"
 }
 
-func c10Lex(runes []rune) (string, int) {
-	lexer := zitiql.NewZitiQlLexer(antlr.NewInputStream(string(runes)))
+func c10Lex(text string) (string, int) {
+	lexer := zitiql.NewZitiQlLexer(antlr.NewInputStream(text))
 	lexer.RemoveErrorListeners()
 	el := &silentListener{DefaultErrorListener: antlr.NewDefaultErrorListener()}
 	lexer.AddErrorListener(el)
@@ -368,27 +376,40 @@ func c10Lex(runes []rune) (string, int) {
 	return strings.Join(ks, ","), el.errs
 }
 
-func c10Runes(rs []rune) string {
-	if len(rs) == 0 {
+// c10EncodeText: the case-line form of a Go string: code points in hex, a byte that is not part of a well-formed
+// UTF-8 sequence as xHH (utf8.DecodeRuneInString consumes exactly one byte there, like []rune(string) does)
+func c10EncodeText(text string) string {
+	if len(text) == 0 {
 		return "-"
 	}
-	parts := make([]string, len(rs))
-	for i, r := range rs {
-		parts[i] = strconv.FormatInt(int64(r), 16)
+	var parts []string
+	for i := 0; i < len(text); {
+		r, size := utf8.DecodeRuneInString(text[i:])
+		if r == utf8.RuneError && size == 1 {
+			parts = append(parts, fmt.Sprintf("x%02x", text[i]))
+		} else {
+			parts = append(parts, strconv.FormatInt(int64(r), 16))
+		}
+		i += size
 	}
 	return strings.Join(parts, ".")
 }
 
-func c10ParseRunes(s string) []rune {
+func c10DecodeText(s string) string {
 	if s == "-" {
-		return nil
+		return ""
 	}
-	var out []rune
+	var out []byte
 	for _, p := range strings.Split(s, ".") {
+		if strings.HasPrefix(p, "x") {
+			v, _ := strconv.ParseUint(p[1:], 16, 8)
+			out = append(out, byte(v))
+			continue
+		}
 		v, _ := strconv.ParseInt(p, 16, 32)
-		out = append(out, rune(v))
+		out = utf8.AppendRune(out, rune(v))
 	}
-	return out
+	return string(out)
 }
 
 // ---- generators ---------------------------------------------------------------------------------
@@ -532,22 +553,23 @@ func runC10(o *opts) error {
 
 	type job struct {
 		stream   string
-		runes    []rune
+		text     string
 		typings  []c10Typing
 		implLine string
 	}
 	var jobs []*job
 	seen := map[string]bool{}
-	emit := func(stream string, runes []rune, typings []c10Typing) {
-		key := stream[:1] + string(runes)
+	// emitS takes the filter as the exact Go string (it may hold bytes that are not UTF-8)
+	emitS := func(stream, text string, typings []c10Typing) {
+		key := stream[:1] + text
 		if seen[key] {
 			return
 		}
 		seen[key] = true
-		jobs = append(jobs, &job{stream: stream, runes: runes, typings: typings})
+		jobs = append(jobs, &job{stream: stream, text: text, typings: typings})
 		stats["stream_"+stream]++
 	}
-	emitS := func(stream, s string, typings []c10Typing) { emit(stream, []rune(s), typings) }
+	emit := func(stream string, runes []rune, typings []c10Typing) { emitS(stream, string(runes), typings) }
 	boolOnly := []c10Typing{c10Typings[3]}
 	flush := func() {
 		workers := 4
@@ -556,36 +578,81 @@ func runC10(o *opts) error {
 		}
 		var wg sync.WaitGroup
 		ch := make(chan *job, 256)
+		// termination: a case that one worker has been busy with for longer than --stall seconds (60; a case takes
+		// milliseconds) ends the run with status 7 and the case line in HANG.txt (library code that does not return
+		// cannot be interrupted in-process)
+		type running struct {
+			j  *job
+			t0 time.Time
+		}
+		current := make([]atomic.Pointer[running], workers)
+		stall := time.Duration(o.getInt("stall", 60)) * time.Second
+		monitorDone := make(chan struct{})
+		defer close(monitorDone)
+		go func() {
+			for {
+				select {
+				case <-monitorDone:
+					return
+				case <-time.After(500 * time.Millisecond):
+				}
+				for w := range current {
+					if r := current[w].Load(); r != nil && time.Since(r.t0) > stall {
+						var names []string
+						for _, ty := range r.j.typings {
+							names = append(names, ty.name)
+						}
+						line := fmt.Sprintf("Q %s %s %s", r.j.stream, c10EncodeText(r.j.text), strings.Join(names, "/"))
+						_ = os.WriteFile(filepath.Join(o.out, "HANG.txt"), []byte(line+"\n"), 0o644)
+						fmt.Println("HANG", line)
+						os.Exit(7)
+					}
+				}
+			}
+		}()
 		for w := 0; w < workers; w++ {
 			wg.Add(1)
-			go func() {
+			go func(w int) {
 				defer wg.Done()
 				for j := range ch {
-					toks, nerr := c10Lex(j.runes)
-					filter := string(j.runes)
+					current[w].Store(&running{j: j, t0: time.Now()})
+					toks, nerr := c10Lex(j.text)
+					filter := j.text
 					var vs []string
 					for _, ty := range j.typings {
 						vs = append(vs, c10Verdict(filter, ty))
 					}
 					j.implLine = fmt.Sprintf("Q %s e%d %s %s %s", toks, nerr, strings.Join(vs, "/"), c10Pooled(filter), c10eEntries(filter))
+					current[w].Store(nil)
 				}
-			}()
+			}(w)
 		}
 		for _, j := range jobs {
 			ch <- j
 		}
 		close(ch)
 		wg.Wait()
+		if blanks := c10wRunes(); o.get("replaycase", "") == "" {
+			// the population of blank-like characters (Go's unicode tables) against the table of Lang/ForeignBlank.v: every
+			// one of them must be in the table (so that the theorems about the edges of a text cover it), and the sizes agree
+			n := len(blanks)
+			cases.line("W blank-like %s -", c10EncodeText(string(blanks)))
+			impl.line("W t%d s%d e%d w%d n%d", n, n, n, n, n)
+		}
 		for _, j := range jobs {
 			var names []string
 			for _, ty := range j.typings {
 				names = append(names, ty.name)
 			}
-			cases.line("Q %s %s %s", j.stream, c10Runes(j.runes), strings.Join(names, "/"))
+			cases.line("Q %s %s %s", j.stream, c10EncodeText(j.text), strings.Join(names, "/"))
 			impl.line("%s", j.implLine)
 		}
 	}
 
+	if o.getInt("termcase", 0) > 0 {
+		// termination: families of valid texts of growing size and their invalid twins, every call under a time bound (c10_term.go)
+		return runC10Term(o)
+	}
 	if n := o.getInt("scalecase", 0); n > 0 {
 		// parse-time scaling: chains of alternating and/or connectives; one line per size, flushed at once
 		// (run in a child process under a timeout by the check)
@@ -617,7 +684,7 @@ func runC10(o *opts) error {
 					}
 				}
 			}
-			emit(f[1], c10ParseRunes(f[2]), tys)
+			emitS(f[1], c10DecodeText(f[2]), tys)
 		}
 		flush()
 		return nil
@@ -650,7 +717,7 @@ func runC10(o *opts) error {
 	// stream 1b: short valid sentences with ONE foreign character inserted at every position, first character
 	// first: where the lexer does not recognise the character, dropping it leaves a valid filter, so that only the
 	// lexer's error report stands between the text and its silent acceptance (inside a string literal it is data)
-	for _, ch := range c10ForeignChars {
+	for _, ch := range append(append([]rune{}, c10ForeignChars...), c10wEveryPosition...) {
 		for _, s := range c10ShortSentences {
 			rs := []rune(s)
 			for pos := 0; pos <= len(rs); pos++ {
@@ -658,6 +725,11 @@ func runC10(o *opts) error {
 			}
 		}
 	}
+
+	// stream 1c (c10_edge.go): every blank-like rune that is not grammar whitespace, bytes that are not UTF-8, NUL, BOM ...
+	// as FIRST and LAST characters of every short sentence, bare and next to grammar whitespace, at token boundaries, in
+	// place of a blank, and alone
+	c10wCases(c10ShortSentences, func(stream, text string) { emitS(stream, text, []c10Typing{c10Typings[0], c10Typings[3]}) })
 
 	// stream 2: token-level mutations
 	nm := 8000
@@ -717,12 +789,13 @@ func runC10(o *opts) error {
 				rs = append(rs, []rune(r.pick(c10LexFragments))...)
 			}
 		default:
-			// raw bytes, converted the way the runtime does ([]rune of a possibly invalid UTF-8 string)
+			// raw bytes: the Go string as it is (mostly not UTF-8); the runtime converts it with []rune(string)
 			b := make([]byte, l)
 			for j := range b {
 				b[j] = byte(r.intn(256))
 			}
-			rs = []rune(string(b))
+			emitS("rand", string(b), []c10Typing{c10Typings[0], c10Typings[3]})
+			continue
 		}
 		emit("rand", rs, []c10Typing{c10Typings[0], c10Typings[3]})
 	}
